@@ -26,8 +26,6 @@ Open Scope N_scope.
        []string / []int32.. / []int64.. decoders refuse null elements          [slice.go, rt.MakeSlice, node.go: AsSliceString..]
      map[string]string refuses null values                                     [map.go: mapStringDecoder]
      integer map keys are parsed by strconv                                    [map.go]
-     null into a pointer is nil at every level                                 [compiler.go: ptrDecoder]
-     null into a TextUnmarshaler value overwrites its first word               [interface.go: unmarshalTextDecoder]
      SONIC_USE_FASTMAP: interface{} maps with duplicate keys are outside the model          [node.go: AsEfaceFast] *)
 Inductive impl := Jit | Opt | OptFast.
 
@@ -181,14 +179,6 @@ Section Sonic.
       end
     end.
 
-  (* pointer to pointer to T with pointer-to-T implementing an unmarshaler: compilePtr returns before pinning the null branch *)
-  Fixpoint unpinned_null (depth : nat) (t : ty) : bool :=
-    match t with
-    | TPtr e => unpinned_null (S depth) e
-    | TRaw | TUnm | TText => Nat.leb 2 depth
-    | _ => false
-    end.
-
   (* _OP_bin: base64x in JSON mode.  Texts that the standard decoder accepts give the same bytes; texts that
      differ from those only by padding are outside the modelled fragment *)
   Definition sonic_b64 (b : bytes) : res val :=
@@ -292,7 +282,7 @@ Section Sonic.
       end
     | TPtr e =>                                             (* compilePtr *)
       match j with
-      | JNull => if negb (is_opt im) && unpinned_null 1 e then Err else Ok VNil
+      | JNull => Ok VNil                                    (* every level pinned since fix fac5479 *)
       | _ => do x <- sonic_bind e j (match v with VPtr x => x | _ => zero e end); Ok (VPtr x)
       end
     | TStruct fs =>                                         (* compileStructBody *)
@@ -334,7 +324,7 @@ Section Sonic.
       end
     | TText =>                                              (* compileUnmarshalTextPtr *)
       match j with
-      | JNull => if is_opt im then Unk else Ok v            (* unmarshalTextDecoder stores nil into the first word of the value *)
+      | JNull => Ok v                                       (* also optdec since fix 45a923b *)
       | JStr b => match sunq b with
                   | Some s => if bytes_eqb s lit_ERR then Err else Ok (VStr s)
                   | None => Err
